@@ -181,6 +181,8 @@ def run_task(task):
             run = e2.run_e2(I, flags, seq, hook_factory=hook_for(task['status']), time_limit=tl, clock=True)
             e.notes['run'] = run
             K = len(run.snaps)
+            e.notes['x_terms'] = {(pr.studentID, pr.projectID): (S.term_of(pr.lp_var.varValue) if pr.lp_var.varValue is not None else z3.IntVal(0))
+                                  for row in run.solver.model.pairs for pr in row}
             log = []
             e.notes['log'] = log
             state = canon(run.solver)
@@ -222,10 +224,9 @@ def run_task(task):
             if s.check() == z3.sat:
                 m = s.model()
                 data['inst'] = rp.inst_to_data(rp.concretize_inst(run.inst, m))
-                last = run.snaps[len(run.snaps) // 2 - 1] if run.snaps else None
-                if last is not None:
-                    data['x'] = [[pr.studentID, pr.projectID, int(rp.mval(m, last.point.of(pr.lp_var_first, z3.IntVal(0)))) if hasattr(pr, 'lp_var_first') else 0]
-                                 for row in run.solver.model.pairs for pr in row]
+                xt = p.notes.get('x_terms')
+                if xt and task['status'] == 'Optimal':
+                    data['x'] = [[s_, p_, int(rp.mval(m, t))] for (s_, p_), t in xt.items()]
         if extra:
             data.update(extra)
         res['cex'].append({'tag': tag, 'what': what, 'data': data})
@@ -332,6 +333,13 @@ def _replay_one(d):
             argv.append('-bf')
         s = ns.solver.Solver(argv)
         s.solve()
+        if d.get('x') and d.get('kind') != 'bf':
+            # post-solve state with the counterexample's values (what the back end could have reported)
+            pin = {(a, b): v for a, b, v in d['x']}
+            for row in s.model.pairs:
+                for pr in row:
+                    pr.lp_var.varValue = float(pin.get((pr.studentID, pr.projectID), 0))
+            s.model.pulp_status = 'Optimal'
         seen = {}
         stats = []
         for rnd in range(2):
